@@ -71,8 +71,10 @@ CHECKS["C09"] = {
 _LIFE_NOTE = ("trusted: TLC; the projection package (encoding/pem + encoding/asn1 shadow structures, standard-library RSA/ECDSA for NIST curves, "
               "own math/big arithmetic for brainpool) which reads the abstract state off the real directory; the simulated filesystem "
               "(logical clock, fault plan). Bounded: 3 entities (chain / star / two roots), 2-3 content values, environment steps <= 2 (quick) / 3 "
-              "(thorough) + seeded random histories of length 10-12; the wide alphabet adds a shared profile file (EditProfile) and expiry "
-              "(Expire + generate-expired) at MaxEnv 2.")
+              "(thorough) + seeded random histories of length 10-12 on the real code; the wider alphabets add a shared profile file (EditProfile), expiry "
+              "(Expire + generate-expired), edits of the issuer relation (SetIssuer) and configurations deleted / put back (RemoveConfig, AddConfig; "
+              "a dangling issuer is refused). Histories of any length are covered in the design model only (TLC simulation of the unbounded model), "
+              "not on the code.")
 CHECKS["C10"] = {
     "engine": "tlc-spec", "category": "model_checking", "design_ref": "6/C10, 3 (Repo.tla), A.4",
     "technique": "TLC model checking of Repo.tla (invariant Idempotent over all 16 flag sets without generate-all) + exploration of the same "
@@ -92,7 +94,8 @@ CHECKS["C12"] = {
     "text": "The specification is a state machine of the directory (configs, artifacts, mtime relations) with user actions (edit, touch, delete, "
             "truncate in three cut classes, strip key, replace by user-supplied cert+key, replace by CSR) and runs. TLC proves convergence after "
             "a default run for all histories within the bound; the driver performs every action of the alphabet from every state it reaches on "
-            "the real code and TLC judges post \\in Apply(pre, action) plus Converged(post) after every successful default run.",
+            "the real code and TLC judges post \\in Apply(pre, action) plus Converged(post) after every successful default run. Further user actions: "
+            "shared profile edited, certificate expired, issuer of an entity changed, configuration deleted and put back.",
     "note": _LIFE_NOTE,
 }
 CHECKS["C14"] = {
